@@ -27,6 +27,8 @@ type c13Case struct {
 	Seed     int64       `json:"seed,omitempty"`
 	Redirect string      `json:"redirect,omitempty"`
 	Then     string      `json:"then,omitempty"`
+	BodyLen  int         `json:"body_len,omitempty"`
+	Chunked  bool        `json:"chunked,omitempty"`
 	N        int         `json:"n,omitempty"`
 	M        int         `json:"m,omitempty"`
 	Info     bool        `json:"info,omitempty"`
@@ -178,7 +180,7 @@ func c13NonShim(rng *rand.Rand, n int, seed int64) []c13Case {
 // C13 — the websocket shim only ever connects to the configured backend.
 func C13(r *core.Run) {
 	r.Level = "exploration"
-	r.SetRule("websockets.Proxy driven in-process (race-built worker, agent's GODEBUG defaults, real gorilla backend, one case at a time per process); observation: every (network,address) handed to websocket.DefaultDialer.NetDialContext, plus request URI and Host the backend's websocket server received. Open bodies: an enumerated corpus of URL syntax classes (absolute ws/wss/http/other, scheme-relative, path-only, opaque, empty, userinfo, IP literals, ports, percent-encoded hosts, back-slashes, odd slashes, fragments, CR/LF, very long, unicode hosts, whitespace, query tricks), seeded mutations (splice, insert special, delete, duplicate) and random byte / ASCII strings, each with rewriteWebsocketHost on and off; plus whole-session histories (open with an absolute / scheme-relative / IP-literal / odd-port URL, the backend drops the websocket abruptly or gracefully, the client goes on with data, poll, data, close, data - the dial observer stays on for all of it); plus bursts of 16 goroutines opening concurrently on one handler, every body naming its own foreign host, port, path and query (dial addresses and per-connection request URI checked; race detector on); plus a backend that answers the handshake with a redirect: statuses {301,302,307,308} x Location {absolute foreign ws, absolute foreign http, scheme-relative foreign, path-only, absolute to the backend, request path plus a trailing slash} x 8 URL shapes incl. paths beginning with //host. Pass-through: requests for ordinary paths and near misses of the shim prefix (two shim paths), random methods/headers/bodies/scripted responses; class = URL syntax class | near-miss class")
+	r.SetRule("websockets.Proxy driven in-process (race-built worker, agent's GODEBUG defaults, real gorilla backend, one case at a time per process); observation: every (network,address) handed to websocket.DefaultDialer.NetDialContext, plus request URI and Host the backend's websocket server received. Open bodies: an enumerated corpus of URL syntax classes (absolute ws/wss/http/other, scheme-relative, path-only, opaque, empty, userinfo, IP literals, ports, percent-encoded hosts, back-slashes, odd slashes, fragments, CR/LF, very long, unicode hosts, whitespace, query tricks), seeded mutations (splice, insert special, delete, duplicate) and random byte / ASCII strings, each with rewriteWebsocketHost on and off; plus pass-through uploads of 8 MiB+1 to 20 MiB (Content-Length and chunked) compared byte for byte at the wrapped handler; plus whole-session histories (open with an absolute / scheme-relative / IP-literal / odd-port URL, the backend drops the websocket abruptly or gracefully, the client goes on with data, poll, data, close, data - the dial observer stays on for all of it); plus bursts of 16 goroutines opening concurrently on one handler, every body naming its own foreign host, port, path and query (dial addresses and per-connection request URI checked; race detector on); plus a backend that answers the handshake with a redirect: statuses {301,302,307,308} x Location {absolute foreign ws, absolute foreign http, scheme-relative foreign, path-only, absolute to the backend, request path plus a trailing slash} x 8 URL shapes incl. paths beginning with //host. Pass-through: requests for ordinary paths and near misses of the shim prefix (two shim paths), random methods/headers/bodies/scripted responses; class = URL syntax class | near-miss class")
 	r.Assume("expected request URI = net/url's escaped path (\"/\" prefixed when missing) + \"?\" + raw query of the supplied URL; how a percent-encoded spelling of the prefix (/shim%2Fopen, /%73him/open) is routed is left to ServeMux and only recorded; paths ServeMux redirects by itself are not generated; the syscall-level (strace) sample of DESIGN.md is not run: the dial hook sees every address before the socket is created")
 	bin := r.MustBuild(r.BuildWorker())
 	godebug := "GODEBUG=" + shimGodebug(r)
@@ -250,6 +252,17 @@ func C13(r *core.Run) {
 		cases = append(cases, c13Case{ID: fmt.Sprintf("burst%d-%d", r.Seed, i), Kind: "burst", Class: "concurrent-opens", Host: "client.example", Rewrite: i%2 == 1, N: 16, M: r.Pick(25, 60)})
 	}
 	cases = append(cases, c13NonShim(rng, r.Pick(100, 3000), r.Seed)...)
+	// large uploads on the normal path: nothing in the shim may cap or truncate them
+	for i, n := range []int{8<<20 + 1, 9 << 20, 12<<20 + 345, 20 << 20} {
+		for j, chunked := range []bool{false, true} {
+			if r.Quick() && (i+j)%2 == 1 {
+				continue // quick: every size once, alternating framing
+			}
+			cases = append(cases, c13Case{ID: fmt.Sprintf("big%d-%d-%v", r.Seed, n, chunked), Kind: "nonshim", Class: "large-body", ShimPath: []string{"shim", "ws-shim/v1"}[(i+j)%2],
+				Target: []string{"/upload", "/api/contents/big.bin?x=1"}[j], Method: []string{"POST", "PUT"}[i%2], Status: 201, Host: "client.example", Seed: rng.Int63(), BodyLen: n, Chunked: chunked,
+				B64: "", Headers: [][2]string{{"Content-Type", "application/octet-stream"}}})
+		}
+	}
 	if r.OnlyCase >= 0 && r.OnlyCase < len(cases) {
 		cases = cases[r.OnlyCase : r.OnlyCase+1]
 	}
@@ -334,7 +347,12 @@ func C13(r *core.Run) {
 				infoShim++
 				how = "handled-by-shim"
 			}
-			r.Case(fmt.Sprintf("pass-through:%s|shim=%s|%s", c.Class, c.ShimPath, how))
+			if c.BodyLen > 0 {
+				r.Case(fmt.Sprintf("pass-through:%s|%d bytes|chunked=%v|shim=%s|%s", c.Class, c.BodyLen, c.Chunked, c.ShimPath, how))
+				r.Add("large_pass_through_bodies_bytes", c.BodyLen)
+			} else {
+				r.Case(fmt.Sprintf("pass-through:%s|shim=%s|%s", c.Class, c.ShimPath, how))
+			}
 		}
 		for _, v := range res.Violations {
 			sig, msg := shimSplit(v)
